@@ -85,6 +85,19 @@ def specs_for(tier, seed):
                     hooks.append(h)
                 add("three names three types", id_sets()["three names three types"], hooks=hooks, hooks_fail=not allow,
                     meta={"family": "challenge hook ends badly", "type": t, "exit": code, "signal": bool(extra), "allow_failure": allow})
+    # the account key was changed in the configuration but the CA refuses (or never answers) the roll-over: whatever the daemon
+    # does next, a proof it deploys has to be the one for the key the CA holds for the account
+    for fault in ("acme:unauthorized:403", "acme:badPublicKey:400", "drop_after"):
+        sp = dict(tag="C05/s%04d" % len(specs), certs=[simple_cert("c%d" % len(specs), ids=id_sets()["three names three types"])],
+                  accounts=[{"name": "acc1", "contacts": [{"mailto": "a@example.org"}], "key_type": "ecdsa_p256"}],
+                  endpoints={"A": {"script": [{"kind": "keyChange", "nth": 1, "fault": fault, "repeat": 1}]}},
+                  meta={"family": "key roll-over refused by the CA", "fault": fault, "set": "three names three types", "ca": {}})
+        def rekey(sc):
+            sc.accounts = [dict(a, key_type="ecdsa_p384") for a in sc.accounts]
+        sp["steps"] = [("run", {"attempts": 1}), ("call", rekey), ("run", {"attempts": 1})]
+        sp = flowcheck.prepare(sp)
+        sp["meta"]["healthy"] = {cid: False for cid in sp["meta"]["flow"]}
+        specs.append(sp)
     # all account key types (the thumbprint enters every proof)
     for kt in KEY_TYPES:
         for name in (["three names three types", "ipv4+ipv6", "name+wildcard"] if tier == "thorough" else ["three names three types"]):
@@ -124,7 +137,7 @@ def run(ctx):
            "model_fidelity": {"all_labels_clean": not fb, "bad": [({k: v for k, v in results[i]["meta"].items() if k not in ("flow", "hook_types")}, l) for i, l, _ in fb[:6]]},
            "exhaustive": False,
            "rule": "identifier sets in which a name and its wildcard, several names, and IPv4/IPv6 addresses use different challenge types; every (quick: sampled) "
-                   "order of authorizations and challenges; authorizations offered in every status, any subset already valid (the rest must still be solved: a solvable issuance must succeed); CAs offering subsets of challenge types; challenge hooks that exit non-zero or are killed by a signal, with and without allow_failure; all 7 account "
+                   "order of authorizations and challenges; authorizations offered in every status, any subset already valid (the rest must still be solved: a solvable issuance must succeed); CAs offering subsets of challenge types; a key roll-over the CA refuses or leaves unanswered; challenge hooks that exit non-zero or are killed by a signal, with and without allow_failure; all 7 account "
                    "key types. Expected proofs are computed by the CA from the registered JWK (RFC 7638 thumbprint built by the vcrypto oracle)."}
     return {"coverage": cov, "assumptions": [
         "a conforming CA marks wildcard authorizations with wildcard=true (RFC 8555 7.1.4); runs against a CA that omits the flag are recorded in model_fidelity only",
